@@ -141,7 +141,7 @@ impl<M: Eq + Hash + Copy + Debug, T: Clone> Ruler<M, T> {
                     }
                     RuleItemConstraint::Require(v) => {
                         assert!(
-                            idhash.contains_key(v),
+                            idhash.get(v).map_or(false, |list| !list.is_empty()),
                             "missing dependency: {:?} requires {:?}", dep.marks.get(0).unwrap(), v
                         );
                     }
